@@ -441,7 +441,11 @@ def gen_history(rng, K, freq, kind, steps):
 
 def run_lines(exe, args, lines, timeout):
     inp = "\n".join(" ".join([str(opc)] + [str(a) for a in a_]) for opc, a_, _ in lines) + "\n"
-    rc, out, err = core.sh([exe] + args, inp=inp.encode(), timeout=timeout)
+    # the extracted reduce_rows recurses 2^hashLog / 16 deep whatever the table holds (level-derived hashLog 21 of the R3
+    # block-mode sessions: 131072 frames): give the model process a large stack
+    import shlex
+    cmd = "ulimit -s 1000000 2>/dev/null; exec " + " ".join(shlex.quote(x) for x in [exe] + list(args))
+    rc, out, err = core.sh(cmd, inp=inp.encode(), timeout=timeout)
     return rc, out.split("\n")[:-1] if out.endswith("\n") else out.split("\n"), err
 
 
@@ -608,7 +612,7 @@ class Scenario:
         if regression is not None:
             mode, level, doff, dsz, chunks = regression
         else:
-            mode = r.randint(0, 1)
+            mode = r.choice([0, 1, 1, 2, 3, 3])     # 2 / 3: frame mode (ZSTD_compressContinue) after the same begins
             level = r.choice([1, 2, 3, 4, 5, 6, 7, 9, 12, 13, 16, 19])
             dsz = r.choice([0, 8, 100, 4096, 4096, 1 << 16, r.randint(8, 1 << 17)])
             doff = self.slice(max(dsz, 1) + (1 << 15))
@@ -638,6 +642,7 @@ class Scenario:
         d0 = self.slice(1 << 16)
         self.blockapi(regression=(1, 3, d0, 4096, [d0 + 1000, 1000, d0 + 1000, 2000]))
         self.blockapi(regression=(0, 3, d0, 4096, [d0 + 1000, 1000, d0 + 1000, 2000]))
+        self.blockapi(regression=(3, 3, d0, 4096, [d0 + 1000, 1000, d0 + 1000, 2000, d0 + 1000, 3000]))
         order = list(range(1, 10))
         r.shuffle(order)
         for i in range(n_rounds):
@@ -674,7 +679,20 @@ class Scenario:
                 self.set_params(strat=r.choice([1, 2, 3, 4, 5, 6, 7]), wlog=r.choice([10, 14, 17, 20]))
                 self.emit("nodict")
                 self.stream(big=True)
-            elif k < 0.8:
+            elif k < 0.78:
+                # R3: a block-level session (128 KiB blocks, no dictionary) that crosses ZSTD_CURRENT_MAX: the correction of the
+                # block-mode branch of ZSTD_compressContinue_internal runs for real in the default build
+                self.emit("warpto %d" % (edge - r.randint(0, 1 << 20)))
+                pos = r.randint(0, self.arena // 4)
+                chunks = []
+                for _ in range(150):
+                    n = 131072
+                    if pos + n >= self.arena or r.random() < 0.05:
+                        pos = r.randint(0, self.arena // 4)
+                    chunks += [pos, n]
+                    pos += n
+                self.emit("blockapi 0 %d 0 0 %d %s" % (r.choice([3, 5, 9]), len(chunks) // 2, " ".join(map(str, chunks))), kind="blockapi")
+            elif k < 0.86:
                 # a dictionary load that crosses ZSTD_CURRENT_MAX
                 self.emit("warpto %d" % (edge - r.randint(0, 1000)))
                 size = (17 << 20) + r.randint(0, 1 << 16)
